@@ -31,6 +31,7 @@ _real = {
     "listdir": os.listdir,
 }
 CHUNK = 8192
+RMTREE_ORDER = "scandir"     # or 'sorted' / 'reversed' (listing order)
 
 
 class _Writer:
@@ -240,15 +241,26 @@ class Interceptor:
         def x_rmtree(path, *a, **k):
             if not me._mine(path):
                 return _real["rmtree"](path, *a, **k)
-            # emulate rmtree with one yield point per unlink
+            # emulate rmtree (entries of a directory in listing order,
+            # sub-directories recursively) with one yield point per unlink
             me.op("rmtree-begin", os.fspath(path))
-            for dp, dn, fn in os.walk(path, topdown=False):
-                for f_ in sorted(fn):
-                    p = os.path.join(dp, f_)
-                    me.op("rmtree-unlink", p)
-                    _real["unlink"](p)
-                me.op("rmtree-rmdir", dp)
-                _real["rmdir"](dp)
+
+            def rm(d):
+                with os.scandir(d) as it:
+                    entries = list(it)
+                if RMTREE_ORDER == "sorted":
+                    entries.sort(key=lambda e: e.name)
+                elif RMTREE_ORDER == "reversed":
+                    entries.sort(key=lambda e: e.name, reverse=True)
+                for e in entries:
+                    if e.is_dir(follow_symlinks=False):
+                        rm(e.path)
+                    else:
+                        me.op("rmtree-unlink", e.path)
+                        _real["unlink"](e.path)
+                me.op("rmtree-rmdir", d)
+                _real["rmdir"](d)
+            rm(os.fspath(path))
 
         def x_sleep(t):
             if me.all_threads or me.ctl.is_actor():
